@@ -289,7 +289,7 @@ def execute(scn, keep_log=False, hook=None):
     tb = st.tables()
     if tb['rcv'] or tb['snd'] or tb.get('mpg'):
         viol.append({'clause': 'session-not-released', 'rank': 3, 'msg': 'tables %s %.1f s after the last injected frame' % (tb, (sim.now - t_last) / 1e9)})
-    elif fd and (tb['bam_free'] != 4 or tb['rts_free'] != 8):
+    elif fd and (tb.get('bam_free', 4) != 4 or tb.get('rts_free', 8) != 8):
         viol.append({'clause': 'pool-not-restored', 'rank': 3, 'msg': 'session pools %s after the traffic' % (tb,)})
     if not tv:
         for p in st.thread_problems():
